@@ -33,6 +33,59 @@ class BoolTr:
         need(False, e, "unsupported condition %s" % ast.dump(e)[:120], self.fname)
 
 
+class BoolTrX(BoolTr):
+    """the same expressions with Python's evaluation order and exceptions: every value is `option bool`, None = an exception was raised
+    while evaluating it; `a or b`, `a and b`, `x if c else y` evaluate (and may raise in) only what Python evaluates.
+    `optleaves`: the leaf terms that are already of type option bool (the others are total booleans)"""
+
+    def __init__(self, fname, leaves, optleaves):
+        BoolTr.__init__(self, fname, leaves)
+        self.optleaves = set(optleaves)
+
+    def tr(self, e):
+        for m in self.leaves:
+            g = m(e)
+            if g is not None:
+                return g if g in self.optleaves else "(Some %s)" % g
+        if isinstance(e, ast.Constant) and isinstance(e.value, bool):
+            return "(Some %s)" % ("true" if e.value else "false")
+        if isinstance(e, ast.IfExp):
+            return "(match %s with Some true => %s | Some false => %s | None => None end)" % (self.tr(e.test), self.tr(e.body), self.tr(e.orelse))
+        if isinstance(e, ast.BoolOp):
+            out = self.tr(e.values[-1])
+            for v in reversed(e.values[:-1]):
+                if isinstance(e.op, ast.Or):
+                    out = "(match %s with Some true => Some true | Some false => %s | None => None end)" % (self.tr(v), out)
+                else:
+                    out = "(match %s with Some false => Some false | Some true => %s | None => None end)" % (self.tr(v), out)
+            return out
+        if isinstance(e, ast.UnaryOp) and isinstance(e.op, ast.Not):
+            return "(option_map negb %s)" % self.tr(e.operand)
+        need(False, e, "unsupported condition %s" % ast.dump(e)[:120], self.fname)
+
+
+def guarded_call(mod, fname, elt, pv):
+    """`g(pred, node)` where the module-level g is `try: return pred(node) / except Exception: return <bool>`: the bool, else None"""
+    if not (isinstance(elt, ast.Call) and isinstance(elt.func, ast.Name) and len(elt.args) == 2 and not elt.keywords
+            and isinstance(elt.args[0], ast.Name) and elt.args[0].id == pv and isinstance(elt.args[1], ast.Name)):
+        return None
+    fns = [n for n in mod.body if isinstance(n, ast.FunctionDef) and n.name == elt.func.id]
+    need(len(fns) == 1, elt, "one module-level definition of %s" % elt.func.id, fname)
+    fn = fns[0]
+    need(len(fn.args.args) == 2 and not fn.args.vararg and not fn.args.kwarg and not fn.args.kwonlyargs and not fn.args.defaults and not fn.decorator_list, fn, "%s(pred, node)" % fn.name, fname)
+    a0, a1 = fn.args.args[0].arg, fn.args.args[1].arg
+    body = [s for s in fn.body if not (isinstance(s, ast.Expr) and isinstance(s.value, ast.Constant))]
+    need(len(body) == 1 and isinstance(body[0], ast.Try) and not body[0].orelse and not body[0].finalbody and len(body[0].handlers) == 1, fn, "%s is one try / except" % fn.name, fname)
+    t = body[0]
+    need(len(t.body) == 1 and isinstance(t.body[0], ast.Return) and isinstance(t.body[0].value, ast.Call) and isinstance(t.body[0].value.func, ast.Name) and t.body[0].value.func.id == a0
+         and len(t.body[0].value.args) == 1 and isinstance(t.body[0].value.args[0], ast.Name) and t.body[0].value.args[0].id == a1 and not t.body[0].value.keywords,
+         fn, "try: return pred(node)", fname)
+    h = t.handlers[0]
+    need(isinstance(h.type, ast.Name) and h.type.id == "Exception" and len(h.body) == 1 and isinstance(h.body[0], ast.Return) and isinstance(h.body[0].value, ast.Constant)
+         and isinstance(h.body[0].value.value, bool), fn, "except Exception: return <bool literal>", fname)
+    return h.body[0].value.value
+
+
 def is_self_attr(e, attr):
     return isinstance(e, ast.Attribute) and isinstance(e.value, ast.Name) and e.value.id == "self" and e.attr == attr
 
@@ -91,6 +144,7 @@ def generate(repo):
     bt = BoolTr(fname, [lambda x: "static" if is_self_attr(x, "static") else None,
                         lambda x: "callv" if isinstance(x, ast.Call) and isinstance(x.func, ast.Name) and x.func.id == "self" and len(x.args) == 1 and not x.keywords else None])
     L.append("Definition base_dynamic_call (static callv : bool) : bool := %s." % bt.tr(e))
+    L.append("Definition base_dynamic_call_x (static : bool) (callv : option bool) : option bool := %s." % BoolTrX(fname, bt.leaves, ["callv"]).tr(e))
 
     # ---- CompositePredicate.__init__
     cinit = find_func(C.body, "__init__", fname)
@@ -121,13 +175,18 @@ def generate(repo):
     g = r.args[0]
     need(len(g.generators) == 1 and not g.generators[0].ifs and isinstance(g.generators[0].iter, ast.Name) and g.generators[0].iter.id == "predicates", call, "... for pred in predicates", fname)
     pv = g.generators[0].target.id
-    if isinstance(g.elt, ast.Call) and isinstance(g.elt.func, ast.Name) and g.elt.func.id == pv and len(g.elt.args) == 1 and not g.elt.keywords:
+    on_exc = guarded_call(mod, fname, g.elt, pv)
+    if on_exc is not None:
+        mode = "true"
+    elif isinstance(g.elt, ast.Call) and isinstance(g.elt.func, ast.Name) and g.elt.func.id == pv and len(g.elt.args) == 1 and not g.elt.keywords:
         mode = "true"
     elif isinstance(g.elt, ast.Call) and is_name_attr(g.elt.func, pv, "dynamic_call") and len(g.elt.args) == 1:
         mode = "false"
     else:
         need(False, call, "element of the reduction is pred(node) or pred.dynamic_call(node)", fname)
     L.append("Definition comp_parts_use_full_call : bool := %s.     (* the reduction evaluates pred(node) on each part (true) or pred.dynamic_call(node) (false) *)" % mode)
+    L.append("Definition comp_part_guard (r : option bool) : option bool := %s.     (* a part that raises: %s *)"
+             % (("match r with None => Some %s | Some _ => r end" % ("true" if on_exc else "false"), "caught, counts as %s" % on_exc) if on_exc is not None else ("r", "the exception leaves the composite")))
     dfl = [s for s in call.body if isinstance(s, ast.Assign) and isinstance(s.targets[0], ast.Name) and s.targets[0].id == "predicates"]
     need(len(dfl) == 1 and isinstance(dfl[0].value, ast.IfExp) and is_self_attr(dfl[0].value.body, "base_predicates"), call, "predicates defaults to self.base_predicates", fname)
 
@@ -143,6 +202,7 @@ def generate(repo):
         return None
     bt = BoolTr(fname, [lambda x: "static" if is_self_attr(x, "static") else None, self_call])
     L.append("Definition comp_dynamic_call (static call_all call_dyn : bool) : bool := %s." % bt.tr(e))
+    L.append("Definition comp_dynamic_call_x (static : bool) (call_all call_dyn : option bool) : option bool := %s." % BoolTrX(fname, bt.leaves, ["call_all", "call_dyn"]).tr(e))
     L.append("     (* call_all = self(node) over all parts, call_dyn = self(node, predicates=the dynamic parts) *)")
 
     # ---- any / all coalescing
@@ -210,6 +270,7 @@ def generate(repo):
         return None
     bt = BoolTr(tname, [dleaf])
     L.append("Definition deliver_test (is_true static dyn full : bool) : bool := %s." % bt.tr(tests[0].test))
+    L.append("Definition deliver_test_x (is_true static : bool) (dyn full : option bool) : option bool := %s." % BoolTrX(tname, bt.leaves, ["dyn", "full"]).tr(tests[0].test))
     L.append("     (* is_true: spec.predicate is Predicate.TRUE; static: .static; dyn: .dynamic_call(node); full: spec.predicate(node) *)")
     # the handler is called in the `then` branch and skipped (new_ret = None) otherwise
     need(any(isinstance(x, ast.Call) and isinstance(x.func, ast.Attribute) and x.func.attr == "handler" for s in tests[0].body for x in ast.walk(s)), tests[0], "handler call in the then-branch", tname)
